@@ -94,7 +94,9 @@ pub fn build(ch: &mut Ch) -> (Shader, Value) {
         } else {
             None
         };
-        let name = match ch.below(4) {
+        let kw = ["in", "dyn", "box"];
+        let name = match ch.below(5) {
+            4 if !sh.overrides.iter().any(|o| kw.contains(&o.name.as_str())) => (*ch.pick(&kw)).to_string(),
             0 => format!("ov_{i}"),
             1 => format!("Scale{i}"),
             2 => format!("größe_{i}"),
@@ -199,7 +201,7 @@ pub fn probe_source(sh: &Shader, extra: &Value) -> String {
                 (true, None) => "None".to_string(),
                 (false, None) => unreachable!(),
             };
-            writeln!(s, "            {}: {val},", o.name).unwrap();
+            writeln!(s, "            {}: {val},", crate::expect::rid(&o.name)).unwrap();
         }
         s.push_str("        };\n        let m: std::collections::HashMap<String, f64> = oc.constants();\n        let mut r = serde_json::Map::new();\n        r.insert(\"map\".into(), dump(&m));\n");
         for e in &sh.entries {
